@@ -46,34 +46,39 @@ def gen_uexpr(rng, known, depth=0):
 
 
 def has_ref(e):
-    if e[0] == 'ref':
+    if e[0] in ('ref', 'qref'):
         return True
     if e[0] == 'num':
         return False
     return has_ref(e[1]) or (e[0] in ('mul', 'div') and has_ref(e[2]))
 
 
-def uexpr_str(e):
+def uexpr_str(e, stores=None):
     t = e[0]
     if t == 'ref':
         return e[1]
+    if t == 'qref':
+        # the registry-level (qualified) name of a unit of ANOTHER store, as str(unit) gives it: unknown in this store
+        return str(stores[e[1]].get_unit(e[2])) if stores is not None else 'qualified_name_of_store%d_%s' % (e[1], e[2])
     if t == 'num':
         return e[1]
     if t == 'mul':
-        return '(%s * %s)' % (uexpr_str(e[1]), uexpr_str(e[2]))
+        return '(%s * %s)' % (uexpr_str(e[1], stores), uexpr_str(e[2], stores))
     if t == 'div':
-        return '(%s / %s)' % (uexpr_str(e[1]), uexpr_str(e[2]))
-    return '((%s) ** %s)' % (uexpr_str(e[1]), e[2])
+        return '(%s / %s)' % (uexpr_str(e[1], stores), uexpr_str(e[2], stores))
+    return '((%s) ** %s)' % (uexpr_str(e[1], stores), '(%s)' % e[2] if '/' in e[2] else e[2])
 
 
 def frac(s):
-    return Fraction(Decimal(s))
+    return Fraction(s) if '/' in str(s) else Fraction(Decimal(s))
 
 
 def uexpr_sexp(e):
     t = e[0]
     if t == 'ref':
         return [0, e[1]]
+    if t == 'qref':
+        return [0, 'qualified_name_of_another_store']      # a name no store defines: the model answers "undefined"
     if t == 'num':
         return [1, frac(e[1])]
     if t == 'mul':
@@ -135,12 +140,24 @@ def gen_case(seed, tier):
         ops.append(['add', 2, sib_name, ('mul', ('ref', sib_base), ('num', b))])
         known[1].append(sib_name)
         known[2].append(sib_name)
+    base_terms = []
+    if nstores >= 2 and reg_of[0] == reg_of[1] and rng.random() < 0.5:
+        # the same NEW BASE unit name declared in two stores sharing a registry: two different units, not convertible
+        bname = rng.choice(['beat', 'cell', 'time'])
+        for st_ in (0, 1):
+            ops.append(['base', st_, bname])
+            known[st_].append(bname)
+            ops.append(['add', st_, 'per_' + bname, ('div', ('ref', bname), ('ref', 'second'))])
+            known[st_].append('per_' + bname)
+            base_terms += [('get', st_, bname), ('get', st_, 'per_' + bname)]
     nunits = rng.randint(3, 8)
     for _ in range(nunits):
         s = rng.randrange(nstores)
         r = rng.random()
         name = rng.choice(NAMES)
         if r < 0.12:
+            if rng.random() < 0.3:
+                name = rng.choice(['time', 'length', 'mass', 'substance', 'current'])   # names of pint's own dimensions
             ops.append(['base', s, name])
         elif r < 0.3:
             # scaled dimensionless unit
@@ -160,6 +177,18 @@ def gen_case(seed, tier):
         if name not in known[s] and not (ops[-1][0] == 'add' and 'nosuch' in uexpr_str(ops[-1][3])) \
                 and name not in ('celsius',):
             known[s].append(name)
+    # stratum: a definition that mentions the QUALIFIED name of a unit of another store sharing the registry (what str(unit)
+    # gives): names of one store are unknown in the other, so the definition is refused and the store stays as it was
+    if nstores >= 2 and rng.random() < 0.5:
+        for _ in range(rng.randint(1, 2)):
+            s_to = rng.randrange(nstores)
+            others = [(o, n) for o in range(nstores) if o != s_to and reg_of[o] == reg_of[s_to]
+                      for n in known[o] if n not in BUILTINS and n not in known[s_to]]
+            if others:
+                o, n = rng.choice(others)
+                nm = rng.choice(['qa', 'qb'])
+                if nm not in known[s_to]:
+                    ops.append(['add', s_to, nm, ('div', ('qref', o, n), ('ref', 'second'))])
     # stratum: scaled dimensionless units raised to powers / in denominators inside a definition, next to the same
     # expression formed from Unit objects
     pow_terms = []
@@ -189,6 +218,17 @@ def gen_case(seed, tier):
                 known[0].append(nm)
                 pow_terms += [('get', 0, nm), as_term(e)]
         pow_terms += [('get', 0, 'pc'), ('get', 0, 'half')]
+    # stratum: named units with exponents whose decimal expansion never ends (1/3, 2/3), next to independent units of the
+    # same dimension: the exponent must not be shortened on its way into the registry
+    if rng.random() < 0.3:
+        for nm, e, twin in (('cbl', ('pow', ('ref', 'liter'), '1/3'), ('div', ('get', 0, 'metre'), ('get', 0, 'xten'))),
+                            ('s23', ('pow', ('ref', 'second'), '2/3'), ('pow', ('pow', ('get', 0, 'second'), '1/3'), '2')),
+                            ('xten', ('mul', ('ref', 'dimensionless'), ('num', '10')), None)):
+            if nm not in known[0]:
+                ops.append(['add', 0, nm, e])
+                known[0].append(nm)
+        pow_terms += [('get', 0, 'cbl'), ('get', 0, 'metre'), ('div', ('get', 0, 'metre'), ('get', 0, 'xten')), ('get', 0, 's23'),
+                      ('pow', ('pow', ('get', 0, 'second'), '1/3'), '2'), ('pow', ('get', 0, 'cbl'), '3'), ('get', 0, 'liter')]
     # stratum: factors whose decimal expansion never ends (1/60, 1/7, 1/3, 1/1.1 ...): full double precision in both directions
     if rng.random() < 0.45:
         for nm, e, b in rng.sample([('xm', ('mul', ('ref', 'second'), ('num', '60')), 'second'),
@@ -223,7 +263,7 @@ def gen_case(seed, tier):
         pool = [a for a in avail if reg_of[a[0]] == reg_of[s0]]
         terms.append(gen_uterm(rng, pool or [(s0, 'second')]))
     terms.append(('get', 0, 'dimensionless'))
-    terms += pow_terms
+    terms += pow_terms + base_terms
     if rng.random() < 0.4:
         # units that carry pint's dimension-less base unit radian TOGETHER with a real dimension, next to their radian-free twins
         terms += [('get', 0, 'lux'), ('div', ('get', 0, 'candela'), ('pow', ('get', 0, 'metre'), '2')),
@@ -298,7 +338,7 @@ def _term(stores, t):
         return _term(stores, t[1]) * _term(stores, t[2])
     if k == 'div':
         return _term(stores, t[1]) / _term(stores, t[2])
-    return _term(stores, t[1]) ** float(t[2])
+    return _term(stores, t[1]) ** float(frac(t[2]))
 
 
 def _sidx(t):
@@ -347,7 +387,7 @@ def run_impl(case):
                 stores.append(UnitStore(None if op[1] < 0 else stores[op[1]]))
                 out.append(['ok'])
             elif k == 'add':
-                stores[op[1]].add_unit(op[2], uexpr_str(op[3]))
+                stores[op[1]].add_unit(op[2], uexpr_str(op[3], stores))
                 out.append(['ok'])
             elif k == 'base':
                 stores[op[1]].add_base_unit(op[2])
@@ -431,9 +471,11 @@ def compare_op(op, impl, mod, base_names):
         dims = {}
         for g, (n, d) in res[1]:
             nm = GEN_NAMES.get(g) or base_names.get(g)
-            dims[nm] = n / d
+            dims[nm] = dims.get(nm, 0) + n / d       # base units of two stores may print under one name
+        dims = {k_: v_ for k_, v_ in dims.items() if v_ != 0}
         got = impl[2]
-        if set(dims) != set(got) or any(abs(dims[x] - got[x]) > 1e-9 for x in dims):
+        # the exponents are read back from the text format() prints, which shows six significant digits
+        if set(dims) != set(got) or any(abs(dims[x] - got[x]) > 6e-6 * max(1.0, abs(dims[x])) for x in dims):
             return 'base-unit dimensions: model %r implementation %r' % (dims, got)
         return None
     return 'unknown op'
@@ -466,7 +508,7 @@ def base_unit_names(case):
             known[s].add(n)
         elif op[0] == 'add':
             s, n = op[1], op[2]
-            if n not in known[s] and n != 'celsius' and 'nosuch' not in uexpr_str(op[3]):
+            if n not in known[s] and n != 'celsius' and 'nosuch' not in uexpr_str(op[3]) and 'qref' not in repr(op[3]):
                 known[s].add(n)
     return names, reg_of
 
@@ -544,6 +586,8 @@ def reference_vectors(case):
         t = e[0]
         if t == 'ref':
             return known[s].get(e[1])
+        if t == 'qref':
+            return None
         if t == 'num':
             v = _vnum(frac(e[1]))
             return None if v is None else {k: Fraction(x) for k, x in v.items()}
@@ -652,13 +696,29 @@ def oracle(case, impl):
                 bad.append(('convert and get_conversion_factor disagree on convertibility',
                             {'from': op[2], 'to': op[3], 'cf': c, 'convert': r}))
 
+    # a base-unit name declared in several stores prints the same for different units: the printed dimensions cannot decide
+    # equality of dimensions then (the reference oracle, which knows the generators, does)
+    declared = [op[2] for op in case['ops'] if op[0] == 'base']
+    ambiguous = {n for n in declared if declared.count(n) > 1}
+
+    terms_by_repr = {}
+    for op in case['ops']:
+        if op[0] in ('cf', 'eq'):
+            terms_by_repr[repr(op[1])] = op[1]
+            terms_by_repr[repr(op[2])] = op[2]
+    refknown = reference_vectors(case) if ambiguous else None
+
+    def uses_user_base(key):
+        v = reference_term(refknown, terms_by_repr[key]) if key in terms_by_repr else None
+        return v is None or any(g <= -100 for g in v)
+
     def val(r):
         return 1.0 if r[1] == 'one' else r[1]
     for (a, b), r in cf.items():
         fa, fb = fmt.get(a), fmt.get(b)
         same_dim = None
         rad_differs = False
-        if fa and fb and fa[0] == 'ok' and fb[0] == 'ok':
+        if fa and fb and fa[0] == 'ok' and fb[0] == 'ok' and not (ambiguous and (uses_user_base(a) or uses_user_base(b))):
             da = {k: v for k, v in fa[2].items() if k != 'radian'}
             db = {k: v for k, v in fb[2].items() if k != 'radian'}
             same_dim = da == db
